@@ -61,16 +61,24 @@ func genC07(r *rt.Rand, tier string, idx int) *world.Scenario {
 	compact := world.Op{K: "compact", Rev: R}
 	sc.Clients = []world.Client{{Ops: []world.Op{compact}}}
 	sc.Extra = map[string]int64{}
+	if h%5 == 2 {
+		// a write whose outcome is unknown waits in the retry queue while the compaction is requested
+		kk := keys[rh.Intn(len(keys))]
+		pending := world.Op{K: "update", Key: kk, Val: "pending", Rev: world.Rev{M: "known"}}
+		sc.Clients[0].Ops = []world.Op{pending, compact}
+		sc.Plan = append(sc.Plan, &simkv.Fault{Op: "commit", Class: "data", Who: "client", Nth: 1, Effect: []string{"uncertain-applied", "uncertain-lost"}[rh.Intn(2)]})
+		sc.Extra["keep_faults"] = 1
+	}
 	switch {
 	case v == 0:
 		sc.Class = "compaction-no-fault"
 	case v <= 32:
 		k, kind := (v-1)/4+1, []string{"err", "uncertain-applied", "uncertain-lost", "cas"}[(v-1)%4]
 		sc.Class = "compaction-single-delete-failure"
-		sc.Plan = []*simkv.Fault{{Op: "anydel", Nth: k, Effect: kind}}
+		sc.Plan = append(sc.Plan, &simkv.Fault{Op: "anydel", Nth: k, Effect: kind})
 	case v <= 40:
 		sc.Class = "compactor-crash"
-		sc.Plan = []*simkv.Fault{{Op: "anydel", Nth: v - 32, Effect: "crash-after"}}
+		sc.Plan = append(sc.Plan, &simkv.Fault{Op: "anydel", Nth: v - 32, Effect: "crash-after"})
 		sc.Extra["crash"] = 1
 	case v <= 44:
 		sc.Class = "compaction-random-delete-failures"
@@ -101,6 +109,9 @@ func genC07(r *rt.Rand, tier string, idx int) *world.Scenario {
 		}
 	}
 	sc.Extra["second_compaction"] = int64(r.Intn(3)) // 0 none, 1 same revision, 2 current
+	if h%5 == 2 {
+		sc.Class += "+pending-unknown-outcome"
+	}
 	// the compaction scan is split along the engine's partitions: borders on index records and inside
 	// keys' versions, from the seam (any engine) or as real regions of the TiKV mock cluster
 	if h%3 == 1 {
@@ -349,6 +360,14 @@ func checkC07(c *Ctx) {
 			if e > reff {
 				reff = e
 			}
+		}
+	}
+	// a compaction never goes further than it was asked to (reads between the requested and the effective
+	// revision would be refused or answered from compacted data)
+	for _, r := range w.Recs {
+		if r.Op.K == "compact" && r.Done && r.Err == "" && r.RevAbs != 0 && r.RevAbs <= r.ComInv && r.Hdr > r.RevAbs {
+			out.violate(P, "compacted-above-request", "compacted-above-request",
+				"Compact(%d) answered that it compacted at %d (committed revision at the request: %d)", r.RevAbs, r.Hdr, r.ComInv)
 		}
 	}
 	dels, failed := 0, 0
